@@ -234,7 +234,8 @@ Definition dispatch_body (cfg : dcfg) (req : request) (already : bool) (s : rsta
       | Some ps =>
           run_chain (d_cfilters cfg ++ sfilters_of cfg w ++ rfilters_of cfg r)
                     (fun s => run_actions (handler_of cfg r)
-                                (upd_log s (L "H:" ++ itoa (r_id r) ++ L " " ++ attr_get K_sel (st_attrs s)
+                                (upd_log (upd_log s (L "H:" ++ itoa (r_id r)))
+                                         (L "saw:" ++ attr_get K_sel (st_attrs s)
                                             ++ L " " ++ attr_get K_params (st_attrs s))))
                     (upd_attrs s [(K_sel, route_path w r); (K_params, of_params_log ps)])
       end
